@@ -21,9 +21,12 @@ IMMS = [0, 1, -1, 127, 128, -128, -129, 255, 256, 32767, 32768, 65535, 65536, -3
         2**32 - 1, 2**32, 2**63 - 1, -2**63]
 
 
+INVALID_REG_TYPES = [0, 1, 7, 8, 9, 10, 14, 15, 18, 19, 20, 21, 22, 23, 24]
+
+
 def rand_reg(rng):
     if rng.chance(1, 10):
-        return ("Rn", rng.below(32), rng.choice(INTERESTING_IDS))
+        return ("Rn", rng.choice(INVALID_REG_TYPES), rng.choice(INTERESTING_IDS))
     return ("R", rng.choice(RTYPES), rng.choice(INTERESTING_IDS) if rng.chance(1, 2) else rng.below(16))
 
 
@@ -83,6 +86,15 @@ def case_line(c):
 def standard(c):
     """case uses only operand kinds the C01 oracles understand"""
     for op in c["ops"]:
+        if op[0] == "L" and op[1] != 0:
+            return False   # unbound label: the displacement is a placeholder (C03's subject)
+        if op[0] == "M" and op[1]["base"] is None and op[1]["index"] is None and op[1]["addr"] != "abs" and c["arch"] == "x64":
+            return False   # relocatable absolute address (C04's subject)
+        if op[0] == "M" and (op[1]["base"] or op[1]["index"]) and not (-2**31 <= op[1]["disp"] < 2**31):
+            return False   # the Mem constructors take an int32 displacement: the harness itself truncates
+        if op[0] == "M" and op[1]["base"] is None and op[1]["index"] is None and c["arch"] == "x64" and not (-2**31 <= op[1]["disp"] < 2**31):
+            return False   # 64-bit absolute addresses above 2 GiB use addr32/moffs forms: judged by C01's dedicated cases
+
         if op[0] in ("Rn", "Lraw", "N"):
             return False
         if op[0] == "M":
@@ -169,6 +181,8 @@ def gen_cases(rng, forms, mode, n):
                 opts = rng.choice([G.OPT_REP, G.OPT_REPNE, G.OPT_ZMASK, G.OPT_ER | G.OPT_RU])
         if rng.chance(1, 12):
             opts |= rng.choice([G.OPT_LOCK, G.OPT_REP, G.OPT_ZMASK, G.OPT_SAE, G.OPT_EVEX, G.OPT_VEX3, G.OPT_REX, G.OPT_SHORT, G.OPT_LONG, 0x1, 0x2, 0x4, 0x80000000])
+        while ops and ops[-1] == ("N",):
+            ops = ops[:-1]   # trailing none operands are "no operand"
         c = dict(id=len(cases), arch="x64" if mode == 64 else "x86", form=f["_idx"], name=name, opts=opts, extra=extra, ops=ops, variant=tag)
         cases.append(c)
     return cases
@@ -252,12 +266,17 @@ def worker(arg):
             if r["oneshot"]:
                 viol.append(("success:left-one-shot-state:%s" % emitter, "successful call left one-shot state: %s" % line, line))
             if emitter == "asm":
-                if standard(c) and not c["name"].startswith("#"):
+                if standard(c) and not c["name"].startswith("#") and not (c["opts"] & (G.OPT_MODMR | G.OPT_MODRM)):
+                    cands = xdec.candidates(c, byname, mode)
+                    if cands:
+                        c["form"] = cands[0][0]["_idx"]   # the perturbed operands may select another form of the mnemonic
                     succ_cases.append(c)
                     succ_recs.append(r)
-                elif r["bytes"]:
+                elif r["bytes"] and any(op[0] in ("Rn", "N") or (op[0] == "M" and any(op[1][k] and op[1][k][0].startswith("#") for k in ("base", "index"))) for op in c["ops"]):
                     stats["succeeded_nonstandard"] += 1
-                    viol.append(("accepted-nonstandard-operand:%s" % c["variant"], "call with an operand kind outside the x86 operand model succeeded and appended %s: %s" % (r["bytes"], line), line))
+                    viol.append(("validator-gap:operands-beyond-signature-accepted", "call with an operand kind outside the x86 operand model (or a gap in the operand list) succeeded and appended %s: %s" % (r["bytes"], line), line))
+                else:
+                    stats["succeeded_not_judged"] += 1
             elif r["dn"] != 1:
                 viol.append(("success:node-count:%s" % emitter, "successful call appended %d nodes: %s" % (r["dn"], line), line))
     # successful assembler calls: same oracles as C01
@@ -267,7 +286,37 @@ def worker(arg):
         v2 = []
         c01.judge_mode(succ_cases, succ_recs, forms, byname, mode, st2, v2, samples2)
         st2.pop("_distinct", None)
+        known_opts = (G.OPT_SHORT | G.OPT_LONG | G.OPT_MODMR | G.OPT_MODRM | G.OPT_VEX3 | G.OPT_VEX | G.OPT_EVEX | G.OPT_LOCK | G.OPT_REP | G.OPT_REPNE |
+                      G.OPT_XACQUIRE | G.OPT_XRELEASE | G.OPT_ER | G.OPT_SAE | G.OPT_ZMASK | G.OPT_REX)
+        by_line = {case_line(c): c for c in succ_cases}
         for k, what, line in v2:
+            c = by_line.get(line)
+            if c is not None and not k.startswith("validator-gap:"):
+                areg = "gp64" if mode == 64 else "gp32"
+                alt = "gp32" if mode == 64 else "gp16"
+                bad_mem = False
+                fobj = forms[c["form"]]
+                for op in c["ops"]:
+                    if op[0] == "M":
+                        mm = op[1]
+                        if mm["base"] and mm["base"][0] == "rip" and (mode == 32 or mm["index"] or mm["base"][1] != 0):
+                            bad_mem = True
+                        if mm["index"] and mm["index"][0] in ("xmm", "ymm", "zmm") and not any(o.get("vsibReg") for o in fobj["operands"]):
+                            bad_mem = True
+                        if mm["seg"] and any(o.get("memSegment") in ("es", "ds") for o in fobj["operands"]):
+                            bad_mem = True
+                        if mm["index"] and mm["index"][0] in ("xmm", "ymm", "zmm") and mm["base"] and mm["base"][0] == "gp16":
+                            bad_mem = True   # VSIB needs a SIB byte: impossible with 16-bit addressing
+                        regs = [op[1][x] for x in ("base", "index") if op[1][x] and op[1][x][0] in ("gp16", "gp32", "gp64")]
+                        if len(set(r[0] for r in regs)) > 1 or any(r[1] >= (16 if mode == 64 else 8) for r in regs) or \
+                           any(r[0] not in (areg, alt) for r in regs) or (regs and regs[0][0] == "gp16" and not (-32768 <= op[1]["disp"] < 65536)):
+                            bad_mem = True
+                if bad_mem:
+                    k = "validator-gap:memory-operand-registers-not-validated"
+                elif c["opts"] & ~known_opts or ((c["opts"] & 0x600000) and not (c["opts"] & G.OPT_ER)):
+                    k = "validator-gap:undefined-option-bits-accepted"
+                elif c["extra"] and not (c["extra"][0] == "k" and 1 <= c["extra"][1] <= 7):
+                    k = "validator-gap:extra-register-not-validated"
             viol.append((k, what, line))
         stats["succeeded_judged"] += st2.get("judged", 0)
     if emitter == "asm":
